@@ -423,6 +423,107 @@ theorem dEigInv_blocks_floor_truncates :
     dEigInvBlocks E sel (max (1025 / 1024) 1) 1024 1025 1024 1 0 = 0 ∧ dEigInvAllK E sel 1025 1024 1 0 = 1 := by
   decide +kernel
 
+
+/-! ## Hermitian part vs symmetric part of the velocity matrix (k.p models) -/
+
+section hermitian_part
+variable {K : Type} [Field K] [StarRing K]
+
+/-- the Hermitian part of a Hermitian matrix is the matrix itself: `0.5 (X + X†) = X` -/
+theorem hermitize_of_hermitian (half : K) (hhalf : half * (1 + 1) = 1) (X : ℕ → ℕ → K)
+    (hX : ∀ i j, star (X j i) = X i j) (i j : ℕ) : hermitize star half X i j = X i j := by
+  unfold hermitize
+  rw [hX i j]
+  calc half * (X i j + X i j) = half * (1 + 1) * X i j := by ring
+    _ = X i j := by rw [hhalf, one_mul]
+
+omit [StarRing K] in
+/-- the symmetric part `0.5 (X + Xᵀ)` equals `X` iff `X` is symmetric — for a Hermitian `X` iff all its entries are
+    real, i.e. iff the imaginary (σ_y-like) inter-band elements vanish -/
+theorem symmetrize_eq_iff (half : K) (hhalf : half * (1 + 1) = 1) (X : ℕ → ℕ → K) :
+    (∀ i j, symmetrize half X i j = X i j) ↔ ∀ i j, X j i = X i j := by
+  have h2 : (1 + 1 : K) ≠ 0 := by
+    intro h; rw [h, mul_zero] at hhalf; exact zero_ne_one hhalf
+  constructor
+  · intro h i j
+    have := h i j
+    unfold symmetrize at this
+    have e : (1 + 1) * (half * (X i j + X j i)) = (1 + 1) * X i j := by rw [this]
+    have e2 : (1 + 1) * (half * (X i j + X j i)) = (half * (1 + 1)) * (X i j + X j i) := by ring
+    rw [e2, hhalf, one_mul] at e
+    have : X i j + X j i = X i j + X i j := by rw [e]; ring
+    exact add_left_cancel this
+  · intro h i j
+    unfold symmetrize
+    rw [h i j]
+    calc half * (X i j + X i j) = half * (1 + 1) * X i j := by ring
+      _ = X i j := by rw [hhalf, one_mul]
+
+theorem symmetrize_hermitian_eq_iff_real (half : K) (hhalf : half * (1 + 1) = 1) (X : ℕ → ℕ → K)
+    (hX : ∀ i j, star (X j i) = X i j) :
+    (∀ i j, symmetrize half X i j = X i j) ↔ ∀ i j, star (X i j) = X i j := by
+  rw [symmetrize_eq_iff half hhalf]
+  constructor
+  · intro h i j
+    calc star (X i j) = star (X j i) := by rw [h i j]
+      _ = X i j := hX i j
+  · intro h i j
+    calc X j i = star (X j i) := (h j i).symm
+      _ = X i j := hX i j
+
+/-- the symmetric part of a Hermitian matrix has only real entries -/
+theorem symmetrize_real (half : K) (hh : star half = half) (X : ℕ → ℕ → K) (hX : ∀ i j, star (X j i) = X i j)
+    (i j : ℕ) : star (symmetrize half X i j) = symmetrize half X i j := by
+  unfold symmetrize
+  rw [star_mul', star_add, hh, hX j i, hX i j, add_comm]
+
+/-- with real velocity matrices and real energies `D_H` is real … -/
+theorem DH_real (V : ℕ → ℕ → ℕ → K) (E : ℕ → K) (sel : ℕ → ℕ → Bool)
+    (hV : ∀ n l a, star (V n l a) = V n l a) (hE : ∀ n, star (E n) = E n) (n l a : ℕ) :
+    star (DH V E sel n l a) = DH V E sel n l a := by
+  unfold DH dEigInv
+  rw [star_mul', star_neg, hV]
+  split
+  · simp
+  · rw [star_inv₀, star_sub, hE, hE]
+
+/-- … and then the internal Berry curvature vanishes IDENTICALLY, for every band group and any number of bands:
+    `-i D_nl D_ln + c.c. = 0` for real `D`.  Dropping the imaginary inter-band velocity elements (the `d_y σ_y` part of
+    a two-band model `d(k)·σ`) therefore kills the curvature and with it the Chern number. -/
+theorem omega_zero_of_real_D (I : K) (hI : star I = -I) (D : ℕ → ℕ → ℕ → K)
+    (hD : ∀ n l a, star (D n l a) = D n l a) (inn out : List ℕ) (c : ℕ) :
+    omegaTrace star I D inn out c = 0 := by
+  rw [omegaTrace_eq]
+  have hp : ∀ n l, pairTerm I D c n l = 0 := by
+    intro n l
+    unfold pairTerm
+    rw [star_mul', star_mul', star_neg, hI, hD, hD]
+    ring
+  simp [hp]
+
+end hermitian_part
+
+/-- σ_y over the Gaussian rationals: Hermitian, its Hermitian part is σ_y, its symmetric part is 0 — the velocity
+    matrix `∂H/∂k_y = σ_y` of the model `k_x σ_x + k_y σ_y + m σ_z` is wiped out by `0.5 (X + Xᵀ)` -/
+theorem symmetrize_kills_sigma_y :
+    let sy : ℕ → ℕ → GRat := fun i j => if i = 0 ∧ j = 1 then ⟨0, -1⟩ else if i = 1 ∧ j = 0 then ⟨0, 1⟩ else ⟨0, 0⟩
+    (∀ i ∈ List.range 2, ∀ j ∈ List.range 2, hermitize GRat.conj ⟨1/2, 0⟩ sy i j = sy i j) ∧
+    (∀ i ∈ List.range 2, ∀ j ∈ List.range 2, symmetrize ⟨1/2, 0⟩ sy i j = ⟨0, 0⟩) ∧ sy 0 1 ≠ ⟨0, 0⟩ := by
+  decide +kernel
+
+/-- non-vacuity and the two-band tie: `V^x = σ_x`, `V^y = σ_y`, energies ∓1 give Berry curvature 1/2 per band
+    (`-1/2` for the other); with `V^y` replaced by its symmetric part (0) the curvature is 0 -/
+example :
+    let Vgood : ℕ → ℕ → ℕ → GRat := fun n l a =>
+      if a = 0 then (if n ≠ l ∧ n < 2 ∧ l < 2 then ⟨1, 0⟩ else ⟨0, 0⟩)
+      else if a = 1 then (if n = 0 ∧ l = 1 then ⟨0, -1⟩ else if n = 1 ∧ l = 0 then ⟨0, 1⟩ else ⟨0, 0⟩) else ⟨0, 0⟩
+    let Vbad : ℕ → ℕ → ℕ → GRat := fun n l a => if a = 1 then symmetrize ⟨1/2, 0⟩ (fun i j => Vgood i j 1) n l else Vgood n l a
+    let E : ℕ → GRat := fun n => if n = 0 then ⟨-1, 0⟩ else ⟨1, 0⟩
+    let sel : ℕ → ℕ → Bool := fun n l => n == l
+    omegaTrace GRat.conj GRat.I (DH Vgood E sel) [0] [1] 2 = ⟨-1/2, 0⟩ ∧
+    omegaTrace GRat.conj GRat.I (DH Vbad E sel) [0] [1] 2 = ⟨0, 0⟩ := by
+  decide +kernel
+
 /-! ## T4: Fermi level above all bands -/
 
 /-- **T4.**  A Fermi-sea k-sum of the internal Berry curvature with the Fermi level above every band (all blocks of
